@@ -18,6 +18,7 @@ import (
 // given shows up as a history dependence (sequential reuse) or as a data race (concurrent reuse).
 
 const uaBase = `
+@page { margin: 75px; @footnote { margin-top: 1em } @top-left { text-align: left; vertical-align: middle } @top-center { text-align: center; vertical-align: middle } @top-right { text-align: right; vertical-align: middle } @bottom-left { text-align: left; vertical-align: middle } @bottom-center { text-align: center; vertical-align: middle } @bottom-right { text-align: right; vertical-align: middle } }
 *[id] { -weasy-anchor: attr(id); }
 a[name] { -weasy-anchor: attr(name); }
 *[lang] { -weasy-lang: attr(lang); }
@@ -57,7 +58,7 @@ var uaExtras = []string{
 	`p { border-radius: 0.5em 1em; outline: 0.1em solid red; outline-offset: 0.2em; border: 1px solid; }`,
 	`div { transform: translate(0.5em, 0.25em); transform-origin: 1em 1em; }`,
 	`p { text-decoration: underline; text-underline-offset: 0.1em; text-decoration-thickness: 0.1em; }`,
-	`div { column-gap: 1em; column-width: 5em; }`,
+	`div { column-gap: 1em; column-rule: 0.1em solid; }`,
 	`p { tab-size: 2em; line-height: 1.5em; vertical-align: 0.2em; }`,
 	`img { width: 2em; height: 1em; }`,
 	`body { margin: 1em 0.5em; }`,
